@@ -880,7 +880,7 @@ int EGLPNUM_TYPENAME_ILLsimplex (
 
 		while (i--)
 			nonzero += lp->matcnt[i];
-		sprintf (buffer, "starting EGLPNUM_TYPENAME_ILLsimplex on %s...", lp->O->probname);
+		snprintf (buffer, sizeof (buffer), "starting EGLPNUM_TYPENAME_ILLsimplex on %s...", lp->O->probname);
 		/* depending on LP's reporter 
 		 * string is printed to stdout 
 		 * or handed to GUI */
